@@ -4,6 +4,10 @@ use crate::ctx::Ctx;
 use crate::gen::Vt;
 use crate::rng::all_perms;
 use crate::sddhist::*;
+use rsdd::builder::sdd::{CompressionSddBuilder, SddBuilder};
+use rsdd::builder::BottomUpBuilder;
+use rsdd::repr::{SddPtr, VTree, VarLabel};
+use serde_json::json;
 
 pub fn run(ctx: &mut Ctx) {
     let checks = SddChecks {
@@ -40,6 +44,61 @@ pub fn run(ctx: &mut Ctx) {
             cfg.nops = rng.range(5, 70);
             let ops = gen_sdd_history(cfg.n, cfg.nops, rng);
             run_sdd_history(ctx, &cfg, &ops, &c2);
+        });
+    }
+    // library-default capacities: > 92 000 decision nodes at one vtree node, so the real
+    // 131072-slot SDD table grows; every node is then re-derived (absorption) and must be
+    // the same pointer
+    let nbig = if ctx.tier == "thorough" { 6 } else { 1 };
+    for case in ctx.cases("default_big", nbig, false) {
+        ctx.run_case("default_big", case, |ctx, rng| {
+            let half = 20usize;
+            let mut left = rng.perm(2 * half);
+            let right = left.split_off(half);
+            let lbl = |v: &Vec<usize>| -> Vec<VarLabel> { v.iter().map(|x| VarLabel::new(*x as u64)).collect() };
+            // root with a right-linear left part and a right-linear right part
+            let vt = VTree::new_node(Box::new(VTree::right_linear(&lbl(&left))), Box::new(VTree::right_linear(&lbl(&right))));
+            crate::caps::reset();
+            let _ = rsdd::verif::take_counters();
+            let builder = CompressionSddBuilder::new(vt);
+            let b = &builder;
+            let lit = |v: usize, p: bool| SddPtr::Var(VarLabel::new(v as u64), p);
+            // 310 functions on each side: conjunctions of two literals
+            let mut side = |vars: &Vec<usize>, rng: &mut crate::rng::Rng| -> Vec<SddPtr> {
+                let mut out = Vec::new();
+                let mut seen = std::collections::HashSet::new();
+                while out.len() < 310 {
+                    let (i, j) = (rng.below(half), rng.below(half));
+                    let pol = rng.below(4);
+                    if i >= j || !seen.insert((i, j, pol)) {
+                        continue;
+                    }
+                    out.push(b.and(lit(vars[i], pol & 1 == 1), lit(vars[j], pol & 2 == 2)));
+                }
+                out
+            };
+            let aa = side(&left, rng);
+            let bb = side(&right, rng);
+            let mut made: Vec<(usize, usize, SddPtr)> = Vec::with_capacity(310 * 310);
+            for (i, a) in aa.iter().enumerate() {
+                for (j, c) in bb.iter().enumerate() {
+                    made.push((i, j, b.and(*a, *c)));
+                }
+            }
+            let (grows, _, _) = rsdd::verif::take_counters();
+            ctx.count("default_table_growths", grows);
+            ctx.count("big_results", made.len() as u64);
+            for (i, j, r) in made.iter() {
+                ctx.count("big_rederivations", 1);
+                let r2 = b.and(*r, aa[*i]);
+                let r3 = b.and(bb[*j], *r);
+                if r2 != *r || r3 != *r || !b.eq(r2, *r) {
+                    ctx.violation("sdd.canon.default_capacity", "the same function derived twice gives two SDD nodes (library-default table size)",
+                        json!({"i": i, "j": j, "table_growths": grows}));
+                    return;
+                }
+            }
+            ctx.case_eval(Some(crate::rng::mix(rng.next())));
         });
     }
     for case in ctx.cases("long", 12, true) {
